@@ -833,3 +833,31 @@ def ref_logp_jax(p, cm, args, kwargs=None):
         lb, rb = ref_logp_jax(p.b, cm, rest, kwargs)
         return jnp.where(check, la, lb), jax.tree_util.tree_map(lambda x, y: jnp.where(check, x, y), ra, rb)
     raise ValueError(p.kind)
+
+
+# --------------------------------------------------------------------------- what a vectorised trace records
+def recorded_view(p):
+    """The arguments a top-level Vmap trace records are lane-stacked for EVERY argument (jax.vmap returns all outputs
+    with the mapped axis leading, unmapped arguments are broadcast).  Read back from such a trace, the program is the
+    same Vmap with in_axes 0 throughout."""
+    if p.kind == "vmap":
+        return VmapC(recorded_view(p.callee), in_axes=0, axis_size=p.axis_size)
+    return p
+
+
+def recorded_args(p, args):
+    """call arguments -> the lane-stacked form in which a top-level Vmap trace records them"""
+    if p.kind != "vmap":
+        return tuple(args)
+    axes = normalize_in_axes(p.in_axes, len(args))
+    n = p.axis_size
+    if n is None:
+        for a, ax in zip(args, axes):
+            n = _axis_len(a, ax)
+            if n is not None:
+                break
+    lanes = []
+    for i in range(n):
+        a_i = [_slice_arg(a, ax, i) for a, ax in zip(args, axes)]
+        lanes.append(recorded_args(p.callee, a_i))
+    return tuple(stack_trees([l[k] for l in lanes]) for k in range(len(args)))
